@@ -59,6 +59,18 @@ func presented(vals url.Values, key string) (any, bool) {
 	return vs[0], true
 }
 
+// c15Prelude is what a server has done before any request it handles: answered earlier requests, some of them
+// invalid, and handed their issues back through the documented Collect helper. Every case starts from that state
+// (the case itself stays a pure function of its own request).
+func c15Prelude() {
+	s := z.Struct(z.Schema{"name": z.String().Required().Min(5), "tags": z.Slice(z.String().Min(3)).Required()})
+	var d c15Dest
+	req, _ := http.NewRequest("GET", "http://example.test/p?name=ab&tags%5B%5D=x&tags%5B%5D=yz", nil)
+	if errs := s.Parse(zhttp.Request(req), &d); errs != nil {
+		z.Issues.CollectMap(errs)
+	}
+}
+
 func propC15(c c15Case) hh.Verdict {
 	raws := map[string]*c15Raw{"name": {}, "tags": {}, "opt": {}, "list": {}}
 	rec := func(field string, slice bool) z.CoercerFunc {
@@ -103,6 +115,7 @@ func propC15(c c15Case) hh.Verdict {
 	dest := sentinel
 	var errs z.ZogIssueMap
 	var pan any
+	c15Prelude()
 	func() {
 		defer func() { pan = recover() }()
 		if c.Ptr {
